@@ -18,6 +18,7 @@ import (
 
 	ledgerpkg "github.com/xuperchain/xupercore/bcs/ledger/xledger/ledger"
 	"github.com/xuperchain/xupercore/bcs/ledger/xledger/state/utxo"
+	"github.com/xuperchain/xupercore/bcs/ledger/xledger/state/utxo/txhash"
 	pb "github.com/xuperchain/xupercore/bcs/ledger/xledger/xldgpb"
 	"github.com/xuperchain/xupercore/protos"
 )
@@ -37,8 +38,16 @@ type NOp struct {
 	Expect   string   `json:"expect,omitempty"`   // informational: what the generator intended
 	BuildAt  *int     `json:"buildat,omitempty"`  // tx: assemble against the state after this block (stale candidates)
 	AwardAdd int64    `json:"awardadd,omitempty"` // peer: award = CalcAward(height) + AwardAdd (adversarial)
-	Old      []string `json:"old,omitempty"`      // peer: txids (hex) of already confirmed transactions to re-include
-	TxsAt    *int     `json:"txsat,omitempty"`    // peer: assemble the block's transactions against the state after this block (adversarial)
+	// CBIn (peer, adversarial): the award transaction (right award in output 0) also cites somebody's unspent output
+	// as an input; 2 = and pays its amount to the proposer in a second output
+	// 3 = the award transaction carries an unrequested key write (TxInputsExt / TxOutputsExt on $verif/a)
+	CBIn int `json:"cbin,omitempty"`
+	// TxMut (peer, adversarial): the first generated transaction of the block is changed after it was built:
+	// "autogen" (plain transfer only: Autogen flag set, signatures removed), "nosig" (signatures removed),
+	// "othersig" (signed by another key whose public key is stated), txid recomputed each time
+	TxMut string   `json:"txmut,omitempty"`
+	Old   []string `json:"old,omitempty"`   // peer: txids (hex) of already confirmed transactions to re-include
+	TxsAt *int     `json:"txsat,omitempty"` // peer: assemble the block's transactions against the state after this block (adversarial)
 }
 
 // NodeMachine couples a real node with the reference model.
@@ -452,6 +461,47 @@ func (nm *NodeMachine) Apply(op NOp) error {
 			award = new(big.Int).Add(award, big.NewInt(op.AwardAdd))
 		}
 		txs := []*pb.Transaction{AwardTx(prop.Address, award, "award-"+op.Label, nm.LM.Ts)}
+		if op.CBIn > 0 {
+			var victim *UTXO
+			// prefer an output worth exactly the award: the forged award transaction then "balances"
+			for pass := 0; pass < 2 && victim == nil; pass++ {
+				for k := 1; k <= 5 && victim == nil; k++ {
+					for _, u := range s.UtxosOf(Ring[(op.Proposer+k)%5].Address) {
+						if u.Frozen == 0 && u.Amount.Sign() > 0 && (pass == 1 || u.Amount.Cmp(award) == 0) {
+							victim = u
+							break
+						}
+					}
+				}
+			}
+			if op.CBIn == 3 {
+				cb := txs[0]
+				key := RawKey(VerifContract, "a")
+				in := &protos.TxInputExt{Bucket: VerifContract, Key: []byte("a")}
+				if kv := s.KV[key]; kv != nil {
+					in.RefTxid, in.RefOffset = kv.Txid, kv.Off
+				}
+				cb.TxInputsExt = []*protos.TxInputExt{in}
+				cb.TxOutputsExt = []*protos.TxOutputExt{{Bucket: VerifContract, Key: []byte("a"), Value: []byte("minted")}}
+				cb.Txid, _ = txhash.MakeTransactionID(cb)
+				nm.KeyUniv[key] = true
+				valid = false
+				whyNot = "the award transaction carries a key write that no verified request produced"
+				nm.Stat["peer-coinbase-with-write"]++
+				victim = nil
+			}
+			if victim != nil {
+				cb := txs[0]
+				cb.TxInputs = []*protos.TxInput{{RefTxid: victim.Txid, RefOffset: victim.Off, FromAddr: []byte(victim.Addr), Amount: victim.Amount.Bytes()}}
+				if op.CBIn == 2 {
+					cb.TxOutputs = append(cb.TxOutputs, &protos.TxOutput{ToAddr: []byte(prop.Address), Amount: victim.Amount.Bytes()})
+				}
+				cb.Txid, _ = txhash.MakeTransactionID(cb)
+				valid = false
+				whyNot = "the award transaction cites an input (supply changes only by the award; nothing is spent unsigned)"
+				nm.Stat["peer-coinbase-with-input"]++
+			}
+		}
 		s.Apply(txs[0], prop.Address)
 		if op.TwoCB {
 			txs = append(txs, AwardTx(prop.Address, award, "award2-"+op.Label, nm.LM.Ts))
@@ -482,6 +532,26 @@ func (nm *NodeMachine) Apply(op NOp) error {
 			tx, _ := nm.buildOn(&op.Txs[i], buildState, false)
 			if tx == nil {
 				continue
+			}
+			if i == 0 && op.TxMut != "" {
+				mutated := true
+				switch {
+				case op.TxMut == "autogen" && len(tx.ContractRequests) == 0 && len(tx.TxOutputsExt) == 0 && len(tx.TxInputsExt) == 0:
+					tx.Autogen = true
+					tx.InitiatorSigns, tx.AuthRequireSigns = nil, nil
+				case op.TxMut == "nosig":
+					tx.InitiatorSigns, tx.AuthRequireSigns = nil, nil
+				case op.TxMut == "othersig":
+					SignTx(tx, Ring[(op.Txs[i].From+1)%5])
+				default:
+					mutated = false
+				}
+				if mutated {
+					tx.Txid, _ = txhash.MakeTransactionID(tx)
+					valid = false
+					whyNot = fmt.Sprintf("transaction %s is not signed by its initiator (%s)", Hex8(tx.Txid), op.TxMut)
+					nm.Stat["peer-unsigned-tx:"+op.TxMut]++
+				}
 			}
 			if buildState != s {
 				buildState.Apply(tx, prop.Address)
